@@ -305,6 +305,14 @@ func enumC15(tier Tier, yield func(C15Case)) {
 	}
 }
 
+// genLenWithBulk: usually 0..maxLen, one time in eight 13..70 (past the allocator's growth steps 16/32/64).
+func genLenWithBulk(t *rapid.T, label string, maxLen int) int {
+	if rapid.IntRange(0, 7).Draw(t, label+"-bulk?") == 0 {
+		return rapid.IntRange(13, 70).Draw(t, label+"-bulk")
+	}
+	return rapid.IntRange(0, maxLen).Draw(t, label)
+}
+
 func genC15(t *rapid.T, tier Tier) C15Case {
 	maxLen := 12
 	if tier.Thorough {
@@ -313,8 +321,8 @@ func genC15(t *rapid.T, tier Tier) C15Case {
 	c := C15Case{
 		SrcKind: rapid.SampledFrom(stackKinds).Draw(t, "srckind"),
 		DstKind: rapid.SampledFrom(stackKinds).Draw(t, "dstkind"),
-		SrcLen:  rapid.IntRange(0, maxLen).Draw(t, "srclen"),
-		DstLen:  rapid.IntRange(0, maxLen).Draw(t, "dstlen"),
+		SrcLen:  genLenWithBulk(t, "srclen", maxLen),
+		DstLen:  genLenWithBulk(t, "dstlen", maxLen),
 		SrcFIFO: rapid.Bool().Draw(t, "fifo"),
 		SrcNils: rapid.Bool().Draw(t, "nils"),
 		Form:    rapid.SampledFrom([]string{"native", "native", "native", "alias", "ptrstack", "ptralias", "readonly", "readonly-alias", "readonly-ptrstack", "readonly-ptralias", "zero", "zeroalias", "nil", "typednil", "int", "string", "cond"}).Draw(t, "form"),
@@ -322,7 +330,7 @@ func genC15(t *rapid.T, tier Tier) C15Case {
 	}
 	c.SrcStack = -1
 	if rapid.Bool().Draw(t, "hasstack") {
-		c.SrcStack = rapid.IntRange(0, maxLen).Draw(t, "srcstack")
+		c.SrcStack = rapid.IntRange(0, max(maxLen, c.SrcLen)).Draw(t, "srcstack")
 	}
 	c.CapExtra = -1
 	if rapid.IntRange(0, 3).Draw(t, "hascap") > 0 {
@@ -332,7 +340,7 @@ func genC15(t *rapid.T, tier Tier) C15Case {
 			c.CapExtra = 0
 		}
 	}
-	c.Reject = rapid.IntRange(0, maxLen+1).Draw(t, "reject")
+	c.Reject = rapid.IntRange(0, max(maxLen, c.SrcLen)+1).Draw(t, "reject")
 	c.DstPrep = rapid.SampledFrom([]string{"", "", "reset", "remove", "insertfront", "popfifo"}).Draw(t, "dstprep")
 	c.SrcMutex = rapid.Bool().Draw(t, "srcmutex")
 	return c
@@ -343,7 +351,7 @@ func init() {
 		ID: "C15",
 		Rule: "exhaustive grid source length 0..6 x destination length 0..6 x destination capacity {none, len+0..len+7} x source LIFO/FIFO x source with/without nil elements x " +
 			"15 destination forms (native, alias, pointer to Stack, pointer to alias, read-only in each of these four forms, zero Stack, zero alias, nil, typed nil pointer, int, string, Condition) plus no-nesting / rejecting-push-policy destinations and destinations with a history (Reset-and-refill, Remove, front Insert, remove-and-push: re-allocated backing arrays); " +
-			"plus rapid-generated larger cells (lengths up to 12, thorough 40). Oracle: source snapshot (public getters + VerifDump) identical; true => destination == old content ++ source; " +
+			"plus rapid-generated larger cells (lengths up to 12, thorough 40; one in eight 13..70). Oracle: source snapshot (public getters + VerifDump) identical; true => destination == old content ++ source; " +
 			"too little room / read-only / non-Stack destination => false and destination snapshot identical; destination-side filter dropping an element => false. " +
 			"non-trivial = 0<free<srcLen, or free==srcLen>0, or a destination-side filter drops an element; distinct = distinct cell",
 		Gen:      genC15,
